@@ -54,6 +54,8 @@ class TlvError(Exception):
 
 def uint(n):
     """minimal big-endian integer, 0 = empty"""
+    if n < 0:
+        raise ValueError('negative integer')
     out = b''
     while n:
         out = bytes([n & 0xff]) + out
@@ -432,9 +434,12 @@ def _imprint(e):
 
 
 def _known_only(t, tags):
-    for c in t.kids():
+    """unknown critical elements make the object invalid; unknown non-critical ones are ignored (dropped from the model)"""
+    for c in list(t.kids()):
         if c.tag not in tags:
-            raise NotInDomain('unknown element %#x in %#x' % (c.tag, t.tag))
+            if not c.nc:
+                raise NotInDomain('unknown critical element %#x in %#x' % (c.tag, t.tag))
+            t.val.remove(c)
 
 
 def parse_link(e):
